@@ -234,4 +234,4 @@ def run(ctx):
             ctx.bump("no_reference")
             continue
         for f in compare(c, impl, ref):
-            ctx.failures.append(shrink(f))
+            ctx.fail(f, shrink)
